@@ -7,6 +7,7 @@ import (
 	"go/token"
 	"go/types"
 	"regexp"
+	"sort"
 	"strings"
 
 	"golang.org/x/tools/go/ssa"
@@ -852,6 +853,128 @@ func ruleOrderSortKey(c *Ctx) []Obligation {
 	}
 	// sortedModules / other collect-then-sort helpers sort the keys of the map themselves: unique by construction
 	obs = append(obs, ok(R, "collect-then-sort loops sort map keys (unique by construction) or whole rendered strings", "-", "I1 sites sort the range keys"))
+	obs = append(obs, c.comparatorSorts(R)...)
+	return obs
+}
+
+// comparatorSorts (seeded C05-w14-2): a sort with a comparator, of elements gathered while ranging over a map, leaves
+// elements the comparator calls equal in the order the map gave them. The comparator must therefore end in a key no
+// two elements share: the element itself (a string, a number), its place in the source, or the module-qualified name
+// identities are filed under. A comparator that looks at fields only is reported.
+func (c *Ctx) comparatorSorts(R string) []Obligation {
+	var obs []Obligation
+	hasMapRange := func(fn *ssa.Function) bool {
+		found := false
+		eachInstr(fn, func(in ssa.Instruction) {
+			if r, isR := in.(*ssa.Range); isR {
+				if _, isM := r.X.Type().Underlying().(*types.Map); isM {
+					found = true
+				}
+			}
+		})
+		return found
+	}
+	var fns []*ssa.Function
+	for _, fn := range c.Funcs {
+		if c.isRepoFn(fn) && fn.Blocks != nil {
+			fns = append(fns, fn)
+		}
+	}
+	sort.Slice(fns, func(i, j int) bool { return fns[i].Pos() < fns[j].Pos() })
+	for _, fn := range fns {
+		n := 0
+		eachInstr(fn, func(in ssa.Instruction) {
+			call, isC := in.(*ssa.Call)
+			if !isC || !(calleeIs(call, "sort", "Slice") || calleeIs(call, "sort", "SliceStable")) || len(call.Call.Args) != 2 {
+				return
+			}
+			n++
+			con := fmt.Sprintf("%s: comparator sort #%d of elements gathered from a map ends in a key no two elements share", c.FnName(fn), n)
+			gathered := hasMapRange(fn)
+			operandClosure(call.Call.Args[0], func(x ssa.Value) {
+				if cc, isCC := x.(*ssa.Call); isCC {
+					if cal := cc.Call.StaticCallee(); cal != nil && c.isRepoFn(cal) && cal.Blocks != nil && hasMapRange(cal) {
+						gathered = true
+					}
+				}
+			})
+			if !gathered {
+				obs = append(obs, ok(R, con, c.InstrPos(call), "the elements are not gathered from a map here"))
+				return
+			}
+			var cmp *ssa.Function
+			if mc, isMC := call.Call.Args[1].(*ssa.MakeClosure); isMC {
+				cmp, _ = mc.Fn.(*ssa.Function)
+			} else if f, isF := call.Call.Args[1].(*ssa.Function); isF {
+				cmp = f
+			}
+			if cmp == nil {
+				obs = append(obs, undecided(R, con, c.InstrPos(call), "the comparator is not a function literal"))
+				return
+			}
+			unique, fields := "", 0
+			eachInstr(cmp, func(ci ssa.Instruction) {
+				bo, isB := ci.(*ssa.BinOp)
+				if !isB || (bo.Op != token.LSS && bo.Op != token.GTR) {
+					return
+				}
+				switch x := bo.X.(type) {
+				case *ssa.Call:
+					if cal := x.Call.StaticCallee(); cal != nil {
+						switch {
+						case baseName(cal) == "modulePrefixedName":
+							unique = "the module-qualified name identities are filed under (ID.KEY)"
+						case cal.Name() == "Source" && c.isRepoFn(cal):
+							unique = "the place in the source"
+						default:
+							fields++
+						}
+					}
+				case *ssa.UnOp:
+					// a field that this function fills from Source(…) only: the place in the source, worked out once
+					if _, lf, _ := loadedField(x); lf != nil {
+						sts := storesToField(fn, lf)
+						all := len(sts) > 0
+						for _, st := range sts {
+							cc, isCC := st.Val.(*ssa.Call)
+							if !isCC || cc.Call.StaticCallee() == nil || cc.Call.StaticCallee().Name() != "Source" || !c.isRepoFn(cc.Call.StaticCallee()) {
+								all = false
+							}
+						}
+						if all {
+							unique = "the place in the source (kept in a field)"
+							return
+						}
+					}
+					if ia, isIA := x.X.(*ssa.IndexAddr); isIA && x.Op == token.MUL {
+						if _, isBasic := x.Type().Underlying().(*types.Basic); isBasic {
+							if _, isFA := ia.X.(*ssa.FieldAddr); !isFA {
+								unique = "the element itself"
+								return
+							}
+						}
+					}
+					fields++
+				case *ssa.Phi:
+					// `si, sj := Source(a), Source(b); si != sj` spelled through variables
+					for _, e := range x.Edges {
+						if cc, isCC := e.(*ssa.Call); isCC {
+							if cal := cc.Call.StaticCallee(); cal != nil && cal.Name() == "Source" && c.isRepoFn(cal) {
+								unique = "the place in the source"
+							}
+						}
+					}
+				default:
+					fields++
+				}
+			})
+			if unique != "" {
+				obs = append(obs, ok(R, con, c.InstrPos(call), "the comparator looks at "+unique))
+			} else {
+				obs = append(obs, bad(R, con, c.InstrPos(call), fmt.Sprintf("the comparator looks at %d field value(s) only: two elements that agree on them come out in the order the map yielded them, which differs from run to run", fields)))
+			}
+		})
+	}
 	return obs
 }
 
@@ -1159,6 +1282,14 @@ func (c *Ctx) sortKeyWeak(app *ssa.Call, mr mapRange) string {
 					switch x.Op {
 					case token.LSS, token.GTR, token.LEQ, token.GEQ:
 						levels++
+						// the elements themselves are compared (strings, numbers): elements that tie are equal
+						if u, isU := x.X.(*ssa.UnOp); isU && u.Op == token.MUL {
+							if _, isIA := u.X.(*ssa.IndexAddr); isIA {
+								if _, isBasic := u.Type().Underlying().(*types.Basic); isBasic {
+									readsKey = true
+								}
+							}
+						}
 					}
 				case *ssa.FieldAddr:
 					if keyFields[x.Field] {
